@@ -9,7 +9,7 @@ from typing import Any
 from sa.absint import Analyzer, Contract
 from sa.lin import Lin, entails
 from sa.report import Ctx
-from sa.srcmodel import ClassInfo, FuncInfo, Repo, func_body
+from sa.srcmodel import ClassInfo, FuncInfo, Repo, func_body, inline_locals
 
 M = "moptipyapps."
 
@@ -474,6 +474,56 @@ def _alloc_size(repo: Repo, cls: ClassInfo, attr: str) \
     return None
 
 
+def _new_shape(repo: Repo, new: FuncInfo) -> tuple[Any, ast.AST | None]:
+    """The shape tuple handed to `super().__new__(cls, <shape>, ...)`, as
+    values (locals of __new__ evaluated in order)."""
+    from sa.kern import make_evaluator, py_calls
+    from sa.symterm import Env, Unsupported
+    ev = make_evaluator(repo, new, extra_call=py_calls)
+    ev.int_transparent = True
+    env = Env()
+    for s in func_body(new):
+        for nd in ast.walk(s):
+            if isinstance(nd, ast.Call) and isinstance(
+                    nd.func, ast.Attribute) and nd.func.attr == "__new__" \
+                    and len(nd.args) >= 2:
+                try:
+                    v = ev.expr(env, nd.args[1])
+                except Unsupported:
+                    return None, nd
+                return (v if isinstance(v, tuple) else None), nd
+        if isinstance(s, (ast.Assign, ast.AnnAssign)) and getattr(
+                s, "value", None) is not None:
+            try:
+                env = ev.stmt(env, s)
+            except Unsupported:
+                pass
+    return None, None
+
+
+def _qap_shape_guards(repo: Repo, qi: FuncInfo) -> bool:
+    """Raising guards reject: len(shape) != 2, shape[0] != shape[1] and
+    shape != flows.shape (compared as conditions over values)."""
+    from sa.casesplit import equivalent
+    from sa.guards import GuardWalk, is_opaque
+    from sa.kern import make_evaluator, py_calls
+    from sa.symterm import Env, Poly, _eq, c_not
+    ev = make_evaluator(repo, qi, extra_call=py_calls)
+    gw = GuardWalk(ev)
+    gw.walk(Env(), func_body(qi))
+    dpar, fpar = qi.params[1], qi.params[2]
+    sh = Poly.var(f"{dpar}.shape")
+    fsh = Poly.var(f"{fpar}.shape")
+    c0 = Poly.atom(("cell", f"{dpar}.shape", (Poly.const(0),)))
+    c1 = Poly.atom(("cell", f"{dpar}.shape", (Poly.const(1),)))
+    ln = Poly.atom(("app", "len", (sh,)))
+    wants = [c_not(_eq(ln, Poly.const(2))), c_not(_eq(c0, c1)),
+             c_not(_eq(sh, fsh))]
+    conds = [e.cond for e in gw.exits if e.kind == "raise"
+             and not is_opaque(e.cond)]
+    return all(any(equivalent(c, w)[0] for c in conds) for w in wants)
+
+
 def _establish(ctx: Ctx) -> None:
     from sa.symterm import Poly, show
     repo = ctx.repo
@@ -506,21 +556,12 @@ def _establish(ctx: Ctx) -> None:
              "BinCountAndSmall", "__temp")):
         c = repo.cls(modn, cls)
         init = c.methods.get("__init__")
-        found = None
-        if init is not None:
-            for s in func_body(init):
-                if isinstance(s, (ast.Assign, ast.AnnAssign)) and isinstance(
-                        s.value, ast.Call) and isinstance(
-                        s.value.func, ast.Attribute) and \
-                        s.value.func.attr in ("empty", "zeros"):
-                    tg = s.targets[0] if isinstance(s, ast.Assign) \
-                        else s.target
-                    if isinstance(tg, ast.Attribute) and tg.attr.strip(
-                            "_") == attr.strip("_"):
-                        found = s
-        ok = found is not None and ast.unparse(
-            found.value.args[0]).endswith("instance.n_items")
-        ctx.ob(R, init, found or (init.node if init else None), ok,
+        a_ = _alloc_size(repo, c, attr)
+        ipar = init.params[1] if init is not None and len(
+            init.params) > 1 else "instance"
+        ok = a_ is not None and a_[2] == Poly.var(f"{ipar}.n_items")
+        ctx.ob(R, init, (a_[1] if a_ else None) or (
+            init.node if init else None), ok,
                f"{cls}.{attr} is allocated with n_items cells" if ok else
                f"{cls}.{attr}: allocation with n_items cells not found",
                construct=f"len({attr}) = n_items")
@@ -542,6 +583,7 @@ def _establish(ctx: Ctx) -> None:
                     if repo.resolve(mod, c.func.id) is not k:
                         continue
                     for pos, a in enumerate(c.args):
+                        a = inline_locals(fi.node, a)
                         if isinstance(a, ast.Attribute):
                             fld = a.attr.strip("_")
                             if fld in pn and pos < len(pn):
@@ -563,26 +605,19 @@ def _establish(ctx: Ctx) -> None:
             (M + "ttp.game_plan", "GamePlan", None)):
         c = repo.cls(modn, cls)
         new = ctx.need(c.methods.get("__new__"), f"{cls}.__new__")
-        shape = None
-        for nd in ast.walk(new.node):
-            if isinstance(nd, ast.Call) and isinstance(
-                    nd.func, ast.Attribute) and nd.func.attr == "__new__" \
-                    and len(nd.args) >= 2 and isinstance(
-                    nd.args[1], ast.Tuple):
-                shape = nd.args[1]
+        shape, shape_node = _new_shape(repo, new)
+        ipar = new.params[1] if len(new.params) > 1 else "instance"
         if cls == "Packing":
-            ok = shape is not None and tuple(
-                ast.unparse(e) for e in shape.elts) == want_src
+            ok = shape == (Poly.var(f"{ipar}.n_items"), Poly.const(6))
             msg = "Packing is allocated as (instance.n_items, 6)"
         else:
-            src = ast.unparse(new.node)
-            ok = shape is not None and len(shape.elts) == 2 and \
-                ast.unparse(shape.elts[1]) == "n" and \
-                "n: Final[int] = instance.n_cities" in src and \
-                "(n - 1) * instance.rounds" in src
+            nc = Poly.var(f"{ipar}.n_cities")
+            ok = shape == ((nc - Poly.const(1)) * Poly.var(
+                f"{ipar}.rounds"), nc)
             msg = "GamePlan is allocated as ((n-1)*rounds, n), n = n_cities"
-        ctx.ob(R, new, shape or new.node, ok, msg,
+        ctx.ob(R, new, shape_node or new.node, ok, msg,
                construct=f"{cls} shape")
+        del want_src
     # ---- element range of game plans: GamePlanSpace.validate
     _plan_range(ctx)
     # ---- cross references to sibling checks that establish contracts
@@ -598,12 +633,7 @@ def _establish(ctx: Ctx) -> None:
         "C16 D16.0",
     ]
     qi = repo.func(M + "qap.instance", "Instance.__init__")
-    src_checks = [ast.unparse(nd.test) for nd in ast.walk(qi.node)
-                  if isinstance(nd, ast.If) and nd.body and isinstance(
-                      nd.body[-1], ast.Raise)]
-    ok = "shape[0] != shape[1]" in src_checks and \
-        "shape != flows.shape" in src_checks and \
-        "len(shape) != 2" in src_checks
+    ok = _qap_shape_guards(repo, qi)
     ctx.ob(R, qi, qi.node, ok,
            "QAP Instance rejects non-square distances and a flow matrix of "
            "another shape", construct="QAP matrix shapes")
@@ -669,17 +699,41 @@ def _plan_range(ctx: Ctx) -> None:
             continue
         lv = [lp.target.id for lp in e.loops
               if isinstance(lp.target, ast.Name)]
+        enum_form = False
         if len(lv) != 2:
-            continue
-        v = Poly.atom(("cell", vf.params[1], (Poly.var(lv[0]),
-                                              Poly.var(lv[1]))))
+            # for i, row in enumerate(x): for j, v in enumerate(row): all
+            # cells of x, whatever its shape
+            lo_, li_ = e.loops
+
+            def en(lp: ast.For) -> tuple[str, str, str] | None:
+                if isinstance(lp.iter, ast.Call) and isinstance(
+                        lp.iter.func, ast.Name) and \
+                        lp.iter.func.id == "enumerate" and len(
+                        lp.iter.args) == 1 and isinstance(
+                        lp.iter.args[0], ast.Name) and isinstance(
+                        lp.target, ast.Tuple) and len(
+                        lp.target.elts) == 2 and all(isinstance(
+                            t, ast.Name) for t in lp.target.elts):
+                    return (lp.iter.args[0].id, lp.target.elts[0].id,
+                            lp.target.elts[1].id)
+                return None
+            eo, ei = en(lo_), en(li_)
+            if eo is None or ei is None or eo[0] != vf.params[1] or \
+                    ei[0] != eo[2]:
+                continue
+            v = Poly.var(ei[2])
+            enum_form = True
+        else:
+            v = Poly.atom(("cell", vf.params[1], (Poly.var(lv[0]),
+                                                  Poly.var(lv[1]))))
         want = ("not", c_and(("le", -n, v), ("le", v, n)))
         from sa.checks.c05 import _same_cond
         alt = ("or", ("lt", v, -n), ("lt", n, v))
         if _same_cond(e.cond, want) or e.cond == alt or \
                 _same_cond(e.cond, alt):
             full = []
-            for lp, hi in zip(e.loops, ((n - Poly.const(1)) * Poly.var(
+            for lp, hi in zip(() if enum_form else e.loops, ((
+                    n - Poly.const(1)) * Poly.var(
                     "self.instance.rounds"), n)):
                 it = lp.iter
                 try:
